@@ -2,7 +2,7 @@
 # usage: seed_check.sh <name> <prop> [more props...]  -- runs /verif checks against the patched worktree /tmp/st-<name>
 N=$1; shift
 W=/tmp/st-$N
-cd /verif
+V=${VERIF_DIR:-/verif}; cd $V
 for P in "$@"; do
   s=$(date +%s)
   FICKLING_REPO=$W /venv/bin/python check.py $P --tier quick > _build/logs/seed-$N-$P.log 2>&1
